@@ -410,6 +410,10 @@ class Interp:
                     raise OutOfSubset("cannot resolve mofun.%s" % attr)
                 m = self.module(rel)
                 return self.global_lookup(attr, m)
+            if (mod, attr) == ('math', 'pi'):
+                pi = z3.Real('math.pi')
+                self.base_axioms_once('pi', [pi > z3.RealVal('3.14159'), pi < z3.RealVal('3.1416')])
+                return Sym(pi)
             return Builtin(mod + '.' + attr, None)
         if name in PY_BUILTINS:
             return Builtin(name, None)
@@ -476,6 +480,12 @@ class Interp:
     def closure_for(self, relpath, qualname):
         m = self.module(relpath)
         return Closure(m.find(qualname), [0], qualname, m)
+
+    def base_axioms_once(self, key, axioms):
+        done = self.__dict__.setdefault('_axiom_keys', set())
+        if key not in done:
+            done.add(key)
+            self.base_axioms.extend(axioms)
 
     def fresh_int(self, base):
         return z3.Int(self.reg.fresh(base))
